@@ -128,6 +128,14 @@ Definition EBPTime (e : t) : Z := extractUtcTime (TimeSeconds e) (TimeFraction e
 Definition SetEBPTime (e : t) (tm : Z) : t := let '(s, f) := insertUtcTime tm in set_Time e s f.
 
 (* ---------------- readers ---------------- *)
+(* Every reader takes g : bool.  g = false is the code as it is in the repaired tree (/root/work/repo-fixed):
+   an optional field that lies outside `data` is read anyway and the index expression panics (F11).
+   g = true is the code with notes/findings/C05-ebp.patch applied: before every optional field
+        if int(index)+n > len(data) || int(index)+n > 0xFF { return nil, gots.ErrInvalidEBPLength }
+   (n = 1, or 8 for the time).  The theorems of C12 are about g = false; C05 relates the two. *)
+Definition chk (g : bool) (data : bytes) (index n : N) : bool :=
+  g && ((len data <? index + n) || (255 <? index + n)).
+
 (* x = data[index]; index += uint8(1) *)
 Definition rd8 (data : bytes) (index : N) : Res (N * N) :=
   let? v := idx data index in Ok (v, w8 (index + 1)).
@@ -139,114 +147,137 @@ Definition rd32 (data : bytes) (index : N) : Res (N * N) :=
   let? s := slice data index (w8 (index + 4)) in
   let? v := uint32be s in Ok (v, w8 (index + 4)).
 
+(* if ebp.ExtensionFlag() { ebp.ExtensionFlags = data[index]; index += uint8(1) } *)
+Definition rd_ext (g : bool) (data : bytes) (s : t * N) : Res (t * N) :=
+  let (e, index) := s in
+  if ExtensionFlag e then
+    if chk g data index 1 then Err E.InvalidEBPLength else
+    let? (v, index) := rd8 data index in Ok (set_ExtensionFlags e v, index)
+  else Ok (e, index).
+(* if ebp.SapFlag() { ebp.SapType = data[index]; index += uint8(1) } *)
+Definition rd_sap (g : bool) (data : bytes) (s : t * N) : Res (t * N) :=
+  let (e, index) := s in
+  if SapFlag e then
+    if chk g data index 1 then Err E.InvalidEBPLength else
+    let? (v, index) := rd8 data index in Ok (set_SapType e v, index)
+  else Ok (e, index).
+(* comcast: if ebp.GroupingFlag() { group := data[index]; ebp.Grouping = append(ebp.Grouping, group); index += uint8(1) } *)
+Definition rd_group1 (g : bool) (data : bytes) (s : t * N) : Res (t * N) :=
+  let (e, index) := s in
+  if GroupingFlag e then
+    if chk g data index 1 then Err E.InvalidEBPLength else
+    let? (v, index) := rd8 data index in Ok (set_Grouping e (Grouping e ++ [v]), index)
+  else Ok (e, index).
+(* if ebp.TimeFlag() { TimeSeconds = Uint32(data[index:index+4]); index += 4; TimeFraction = ...; index += 4 } *)
+Definition read_time (g : bool) (data : bytes) (s : t * N) : Res (t * N) :=
+  let (e, index) := s in
+  if TimeFlag e then
+    if chk g data index 8 then Err E.InvalidEBPLength else
+    let? (sec, index) := rd32 data index in
+    let? (f, index) := rd32 data index in
+    Ok (set_Time e sec f, index)
+  else Ok (e, index).
+(* cablelabs: if ebp.PartitionFlag() { ebp.PartitionFlags = data[index]; index += uint8(1) } *)
+Definition rd_part (g : bool) (data : bytes) (s : t * N) : Res (t * N) :=
+  let (e, index) := s in
+  if PartitionFlag e then
+    if chk g data index 1 then Err E.InvalidEBPLength else
+    let? (v, index) := rd8 data index in Ok (set_PartitionFlags e v, index)
+  else Ok (e, index).
+
 (* the common tail of both readers:
    if index < ebp.DataFieldLength+2 { if int(ebp.DataFieldLength+2) > len(data) { return err }
                                       ebp.ReservedBytes = data[index : ebp.DataFieldLength+2] }   (uint8) *)
-Definition read_reserved (data : bytes) (e : t) (index : N) : Res t :=
+Definition read_reserved (data : bytes) (s : t * N) : Res t :=
+  let (e, index) := s in
   let stop := w8 (DataFieldLength e + 2) in
   if index <? stop then
     if len data <? stop then Err E.InvalidEBPLength else
     let? r := slice data index stop in Ok (set_ReservedBytes e r)
   else Ok e.
 
-Definition read_time (data : bytes) (e : t) (index : N) : Res (t * N) :=
-  if TimeFlag e then
-    let? (s, index) := rd32 data index in
-    let? (f, index) := rd32 data index in
-    Ok (set_Time e s f, index)
-  else Ok (e, index).
-
-Definition readComcastEbp (data : bytes) : Res t :=
+Definition readComcastEbp (g : bool) (data : bytes) : Res t :=
   let e := zero ComcastEbpTag in
   if len data <? 2 then Err E.NoPayload else
   let index := 0 in
   let? (v, index) := rd8 data index in let e := set_DataFieldTag e v in
   let? (v, index) := rd8 data index in let e := set_DataFieldLength e v in
-  let? (e, index) :=
+  let? s :=
     if 0 <? DataFieldLength e then
       if 3 <=? len data then let? (v, index) := rd8 data index in Ok (set_DataFlags e v, index)
       else Err E.InvalidEBPLength
     else Ok (e, index) in
-  let? (e, index) :=
-    if ExtensionFlag e then let? (v, index) := rd8 data index in Ok (set_ExtensionFlags e v, index)
-    else Ok (e, index) in
-  let? (e, index) :=
-    if SapFlag e then let? (v, index) := rd8 data index in Ok (set_SapType e v, index)
-    else Ok (e, index) in
-  let? (e, index) :=
-    if GroupingFlag e then let? (v, index) := rd8 data index in Ok (set_Grouping e (Grouping e ++ [v]), index)
-    else Ok (e, index) in
-  let? (e, index) := read_time data e index in
-  read_reserved data e index.
+  let? s := rd_ext g data s in
+  let? s := rd_sap g data s in
+  let? s := rd_group1 g data s in
+  let? s := read_time g data s in
+  read_reserved data s.
 
 (* for groupExtFlag { REPAIR: if int(index) >= len(data) || index == 0xFF { return ErrInvalidEBPLength }
                       groupExtFlag = data[index]&0x80 != 0; group = data[index]&0x7F; append; index++ } *)
-Fixpoint group_loop (fuel : nat) (data : bytes) (g : bytes) (index : N) : Res (bytes * N) :=
+Fixpoint group_loop (fuel : nat) (data : bytes) (gr : bytes) (index : N) : Res (bytes * N) :=
   match fuel with
   | O => Diverge
   | S fuel =>
     if (len data <=? index) || (index =? 255) then Err E.InvalidEBPLength else
     let? v := idx data index in
-    let g := g ++ [N.land v 127] in
+    let gr := gr ++ [N.land v 127] in
     let index := w8 (index + 1) in
-    if negb (N.land v 128 =? 0) then group_loop fuel data g index else Ok (g, index)
+    if negb (N.land v 128 =? 0) then group_loop fuel data gr index else Ok (gr, index)
   end.
-(* the unrepaired loop (no guard), kept for the C05 refutation witnesses *)
-Fixpoint group_loop_unguarded (fuel : nat) (data : bytes) (g : bytes) (index : N) : Res (bytes * N) :=
+(* the loop as pinned in /repo (no guard), kept for the C05 refutation witnesses *)
+Fixpoint group_loop_unguarded (fuel : nat) (data : bytes) (gr : bytes) (index : N) : Res (bytes * N) :=
   match fuel with
   | O => Diverge
   | S fuel =>
     let? v := idx data index in
-    let g := g ++ [N.land v 127] in
+    let gr := gr ++ [N.land v 127] in
     let index := w8 (index + 1) in
-    if negb (N.land v 128 =? 0) then group_loop_unguarded fuel data g index else Ok (g, index)
+    if negb (N.land v 128 =? 0) then group_loop_unguarded fuel data gr index else Ok (gr, index)
   end.
 
-Definition read_groups (loop : nat -> bytes -> bytes -> N -> Res (bytes * N)) (data : bytes) (e : t) (index : N)
+(* if ebp.GroupingFlag() { first id; for groupExtFlag { ... } } ; fuel: the loop index is a uint8 *)
+Definition read_groups (loop : nat -> bytes -> bytes -> N -> Res (bytes * N)) (g : bool) (data : bytes) (s : t * N)
   : Res (t * N) :=
+  let (e, index) := s in
   if GroupingFlag e then
+    if chk g data index 1 then Err E.InvalidEBPLength else
     let? v := idx data index in
-    let g := Grouping e ++ [N.land v 127] in
+    let gr := Grouping e ++ [N.land v 127] in
     let index := w8 (index + 1) in
     if negb (N.land v 128 =? 0) then
-      let? (g, index) := loop (S (length data) + 256)%nat data g index in Ok (set_Grouping e g, index)
-    else Ok (set_Grouping e g, index)
+      let? (gr, index) := loop 257%nat data gr index in Ok (set_Grouping e gr, index)
+    else Ok (set_Grouping e gr, index)
   else Ok (e, index).
 
-Definition readCableLabsEbp_with (loop : nat -> bytes -> bytes -> N -> Res (bytes * N)) (data : bytes) : Res t :=
+Definition readCableLabsEbp_with (loop : nat -> bytes -> bytes -> N -> Res (bytes * N)) (g : bool) (data : bytes) : Res t :=
   let e := zero CableLabsEbpTag in
   if len data <? 2 then Err E.NoPayload else
   let index := 0 in
   let? (v, index) := rd8 data index in let e := set_DataFieldTag e v in
   let? (v, index) := rd8 data index in let e := set_DataFieldLength e v in
-  let? (e, index) :=
+  let? s :=
     if 0 <? DataFieldLength e then
       if 7 <=? len data then
         let? (v, index) := rd32 data index in let e := set_FormatIdentifier e v in
         let? (v, index) := rd8 data index in Ok (set_DataFlags e v, index)
       else Err E.InvalidEBPLength
     else Ok (e, index) in
-  let? (e, index) :=
-    if ExtensionFlag e then let? (v, index) := rd8 data index in Ok (set_ExtensionFlags e v, index)
-    else Ok (e, index) in
-  let? (e, index) :=
-    if SapFlag e then let? (v, index) := rd8 data index in Ok (set_SapType e v, index)
-    else Ok (e, index) in
-  let? (e, index) := read_groups loop data e index in
-  let? (e, index) := read_time data e index in
-  let? (e, index) :=
-    if PartitionFlag e then let? (v, index) := rd8 data index in Ok (set_PartitionFlags e v, index)
-    else Ok (e, index) in
-  read_reserved data e index.
-Definition readCableLabsEbp : bytes -> Res t := readCableLabsEbp_with group_loop.
-Definition readCableLabsEbp_unrepaired : bytes -> Res t := readCableLabsEbp_with group_loop_unguarded.
+  let? s := rd_ext g data s in
+  let? s := rd_sap g data s in
+  let? s := read_groups loop g data s in
+  let? s := read_time g data s in
+  let? s := rd_part g data s in
+  read_reserved data s.
+Definition readCableLabsEbp : bool -> bytes -> Res t := readCableLabsEbp_with group_loop.
+Definition readCableLabsEbp_unrepaired : bytes -> Res t := readCableLabsEbp_with group_loop_unguarded false.
 
 Inductive flavour : Type := Comcast | CableLabs.
-Definition ReadEncoderBoundaryPoint (data : bytes) : Res (flavour * t) :=
+Definition ReadEncoderBoundaryPoint (g : bool) (data : bytes) : Res (flavour * t) :=
   if len data =? 0 then Err E.NoEBPData else
   let? tag := idx data 0 in
-  if tag =? ComcastEbpTag then let? e := readComcastEbp data in Ok (Comcast, e)
-  else if tag =? CableLabsEbpTag then let? e := readCableLabsEbp data in Ok (CableLabs, e)
+  if tag =? ComcastEbpTag then let? e := readComcastEbp g data in Ok (Comcast, e)
+  else if tag =? CableLabsEbpTag then let? e := readCableLabsEbp g data in Ok (CableLabs, e)
   else Err E.UnrecognizedEbpType.
 
 (* ---------------- Data() : returns the bytes and the receiver (DataFieldLength is overwritten) ---------------- *)
